@@ -15,13 +15,13 @@ type VerifNode[K any, V any] struct {
 func (m Map[K, V]) VerifRoot() VerifNode[K, V] { return VerifNode[K, V]{m.t.root} }
 
 // VerifGen returns the tree's structural-modification counter.
-func (m Map[K, V]) VerifGen() int { return m.t.gen }
+func (m Map[K, V]) VerifGen() int { return int(m.t.gen) }
 
 // VerifRoot returns a handle on the current root node.
 func (s Set[T]) VerifRoot() VerifNode[T, struct{}] { return VerifNode[T, struct{}]{s.t.root} }
 
 // VerifGen returns the tree's structural-modification counter.
-func (s Set[T]) VerifGen() int { return s.t.gen }
+func (s Set[T]) VerifGen() int { return int(s.t.gen) }
 
 // Nil reports whether the handle refers to no node.
 func (n VerifNode[K, V]) Nil() bool { return n.x == nil }
